@@ -1106,11 +1106,7 @@ func enclosingFunc(file *ast.File, p token.Pos) string {
 // countedLoop: for i := 0; i < n; i++ with i and n not assigned in the body.
 func countedLoop(info *types.Info, fs *ast.ForStmt) (bool, string) {
 	init, ok := fs.Init.(*ast.AssignStmt)
-	if !ok || len(init.Lhs) != 1 {
-		return false, "init form"
-	}
-	iv, ok := init.Lhs[0].(*ast.Ident)
-	if !ok {
+	if !ok || init.Tok != token.DEFINE {
 		return false, "init form"
 	}
 	cond, ok := fs.Cond.(*ast.BinaryExpr)
@@ -1118,7 +1114,17 @@ func countedLoop(info *types.Info, fs *ast.ForStmt) (bool, string) {
 		return false, "condition is not i < n"
 	}
 	ci, ok := cond.X.(*ast.Ident)
-	if !ok || info.ObjectOf(ci) != info.ObjectOf(iv) {
+	if !ok {
+		return false, "condition does not test the induction variable"
+	}
+	// the induction variable is one of the variables the init statement defines (for i, n := 0, xs.Len(); i < n; i++)
+	var iv *ast.Ident
+	for _, l := range init.Lhs {
+		if id, ok := l.(*ast.Ident); ok && info.ObjectOf(id) == info.ObjectOf(ci) {
+			iv = id
+		}
+	}
+	if iv == nil {
 		return false, "condition does not test the induction variable"
 	}
 	bound, ok := cond.Y.(*ast.Ident)
